@@ -12,6 +12,10 @@ def scen(w, **kw):
 SCENARIOS = {}
 
 
+def scen_ind_fw(w, start="outside", kinds="r"):
+    rt.ind_step_fw(w, start, kinds)
+
+
 def scen_ind(w, start="outside", kinds="r"):
     rt.ind_step(w, "C05", start, kinds)
 
@@ -51,6 +55,13 @@ def plan(tier):
                             bounds={"K": "1 step from an arbitrary invariant state (all history lengths)",
                                     "roles": rt.IND_ROLES, "retraction style": "E-only"},
                             excludable=rt.EXCLUDABLE + ["exit_while_xyz_relative"]))
+    for start in ("outside", "inside"):
+        SCENARIOS["ind-fw-" + start] = scen_ind_fw
+        out.append(Scenario("ind-fw-" + start, scen_ind_fw, params={"start": start, "kinds": "r"},
+                            cover=["role-" + r for r in rt.IND_FW_ROLES] + ["class-%d-%s" % (c, start) for c in range(3)],
+                            bounds={"K": "1 step from an arbitrary invariant state (all history lengths)",
+                                    "roles": rt.IND_FW_ROLES, "retraction style": "firmware (G10/G11)"},
+                            excludable=["exit_while_xyz_relative"]))
     if tier == "thorough":
         add("e-only-k4", K=4, firmware=0, kinds="rd")
         add("firmware-k4-all", K=4, firmware=1, kinds="r")
